@@ -142,3 +142,55 @@ func vpH_C28_VerifyTxnVerboseNoPanic() {
 		vpReach("verdict-error")
 	}
 }
+
+// ---- C28-H2: block range queries behind /api/v1/blocks and /api/v1/last_blocks ----
+
+type vpRangeStore struct {
+	chainStore
+	n uint64 // chain holds blocks 0..n-1
+}
+
+func (s *vpRangeStore) GetSignedBlockBySeq(tx *dbutil.Tx, seq uint64) (*coin.SignedBlock, error) {
+	if seq >= s.n {
+		return nil, nil
+	}
+	b := &coin.SignedBlock{}
+	b.Head.BkSeq = seq
+	return b, nil
+}
+
+func (s *vpRangeStore) HeadSeq(tx *dbutil.Tx) (uint64, bool, error) {
+	if s.n == 0 {
+		return 0, false, nil
+	}
+	return s.n - 1, true, nil
+}
+
+//vp:prop C28
+//vp:bounds chain of 0..3 blocks; start, end and count parameters free 64-bit
+//vp:assume an allocation of more than 2^24 elements whose size comes from request parameters counts as a crash (makeslice panics or exhausts memory)
+//vp:noreplay the chain store is a fake
+//vp:unwind 8
+func vpH_C28_BlockRangeQueriesNoPanic() {
+	store := &vpRangeStore{n: uint64(vpLen("chainLen", 0, 3))}
+	bc := Blockchain{store: store}
+	start, end := vpU64("start"), vpU64("end")
+	blocks, err := bc.GetBlocksInRange(nil, start, end)
+	vpAssert(err == nil, "range_query_returns_no_error")
+	for i := range blocks {
+		vpAssert(blocks[i].Head.BkSeq == start+uint64(i), "range_query_returns_consecutive_blocks_from_start")
+	}
+	if start <= end && start < store.n {
+		want := store.n - start
+		if end-start+1 < want && end-start+1 != 0 {
+			want = end - start + 1
+		}
+		vpAssert(uint64(len(blocks)) == want, "range_query_returns_every_block_in_range")
+	} else {
+		vpAssert(len(blocks) == 0, "empty_or_out_of_chain_range_is_empty")
+	}
+	num := vpU64("num")
+	last, err2 := bc.GetLastBlocks(nil, num)
+	vpAssert(err2 == nil, "last_blocks_returns_no_error")
+	vpAssert(uint64(len(last)) <= store.n, "last_blocks_bounded_by_chain")
+}
